@@ -2,6 +2,7 @@
 //! (stateful decoder, adaptive VR decoder) and command sets.
 mod c07;
 mod c31;
+mod gen;
 mod rd;
 use vhc::*;
 
